@@ -796,8 +796,59 @@ impl World {
                     self.put(i, n);
                 }
             },
+            Op::Keygen { node } => self.op_keygen(node as usize),
             Op::Epilogue => {
                 self.epilogue = true;
+            },
+        }
+    }
+
+    /// The library's own key generation, driven through the node's resolver and RNG seam.
+    fn op_keygen(&mut self, i: usize) {
+        if i >= self.nodes.len() {
+            return;
+        }
+        let nc = self.cfg.nodes[i].clone();
+        let proto = match Proto::parse(&nc.name) {
+            Ok(p) => p,
+            Err(_) => return,
+        };
+        let rng = self.nodes[i].rng.clone();
+        self.call_id += 1;
+        rng.begin_call(self.call_id, mix(i as u64, 0x4B47));
+        let r = guarded(|| -> Result<(snow::Keypair, snow::Keypair), Error> {
+            let params: snow::params::NoiseParams = nc.name.parse()?;
+            let resolver = SimResolver::new(nc.backend, rng.clone(), None, None);
+            let b = Builder::with_resolver(params, Box::new(resolver));
+            let k1 = b.generate_keypair()?;
+            let k2 = b.generate_keypair()?;
+            Ok((k1, k2))
+        });
+        let site = format!("keygen/{}", proto.dh.name());
+        match r {
+            Err(p) => {
+                self.flag(&["C10"], "panic", &site, &format!("generate_keypair panicked: {p}"));
+                self.stats.aborted_by_panic += 1;
+            },
+            Ok(Err(e)) => {
+                self.flag(&["C02"], "keygen-fails", &site, &format!("{e:?}"));
+            },
+            Ok(Ok((k1, k2))) => {
+                self.stats.probe("keypairs-generated-by-snow");
+                let drawn: usize = self.nodes[i].rng.drawn().iter().map(|d| d.len()).sum();
+                for k in [&k1, &k2] {
+                    let ok = k.private.len() == 32 && proto.dh.pubkey(&k.private).map_or(false, |p| p == k.public);
+                    if !ok {
+                        self.flag(&["C02", "C01"], "keygen-inconsistent", &site, &format!("public key (len {}) is not the public key of the private key (len {})", k.public.len(), k.private.len()));
+                    }
+                }
+                if k1.private == k2.private {
+                    self.flag(&["C02", "C06"], "keygen-repeats", &site, "two generated key pairs are identical");
+                }
+                if drawn < 64 {
+                    self.flag(&["C06"], "keygen-not-from-resolver-rng", &site, &format!("{drawn} bytes drawn from the resolver's random source for two key pairs"));
+                }
+                self.trace.write(&k1.public);
             },
         }
     }
@@ -1000,7 +1051,23 @@ impl World {
                         self.flag(&["C06"], "ephemeral-not-drawn-in-call", &site, &format!("{} random bytes drawn during a write with an 'e' token", drawn.len()));
                         None
                     } else {
-                        Some(drawn[..32].to_vec())
+                        // the private key is among the bytes drawn in this call: normally the
+                        // first 32; a backend that redraws (e.g. rejection sampling) uses a later
+                        // 32-byte chunk - take the chunk whose public key is the one in the message
+                        let pl = shadow.proto.pub_len();
+                        let mut pick = drawn[..32].to_vec();
+                        if n >= pl && drawn.len() >= 64 {
+                            let first_ok = shadow.proto.dh.pubkey(&pick).map_or(false, |p| p[..] == out[..pl]);
+                            if !first_ok {
+                                for c in drawn.chunks_exact(32).skip(1) {
+                                    if shadow.proto.dh.pubkey(c).map_or(false, |p| p[..] == out[..pl]) {
+                                        pick = c.to_vec();
+                                        break;
+                                    }
+                                }
+                            }
+                        }
+                        Some(pick)
                     }
                 } else {
                     None
